@@ -146,11 +146,19 @@ func runRace(rng *rand.Rand, n int, out *Out, _ []string) {
 	err := cmd.Run()
 	races := strings.Count(stderr.String(), "WARNING: DATA RACE")
 	out.Count(fmt.Sprintf("race:data-race-reports=%d", races))
+	first := ""
 	if races > 0 {
-		// first report, for the evidence log
+		// first report, for the evidence log and the replay
 		s := stderr.String()
 		i := strings.Index(s, "WARNING: DATA RACE")
-		fmt.Fprintln(os.Stderr, s[i:minInt(len(s), i+3000)])
+		first = s[i:minInt(len(s), i+3000)]
+		fmt.Fprintln(os.Stderr, first)
+	}
+	// the statement's own words: "there are no data races" (readers of the pool against the inserting goroutine and
+	// against each other); the unchanged tree runs this suite without a single report
+	out.Oracle(races == 0, "no-data-race-between-pool-readers-and-writer", Tup(I64(int64(races)), first))
+	if strings.Contains(stderr.String(), "fatal error: concurrent map") {
+		out.Oracle(false, "no-data-race-between-pool-readers-and-writer", Tup("fatal error: concurrent map access"))
 	}
 	out.Oracle(err == nil, "race-run-completes", Tup(fmt.Sprint(err)))
 	if f, e := os.Open(tmp.Name()); e == nil {
